@@ -88,6 +88,8 @@ pub enum Action {
     Restart,
     /// the client process is stalled: the clock jumps by `ms`, due timers fire afterwards
     ClockJump { ms: u64 },
+    /// the client host's wall clock is stepped by `ms` (negative: backwards); no time passes
+    ClockSkew { ms: i64 },
     User(UserOp),
     /// connect/disconnect the relay protocol (v2 or v3 chosen by the hard-fork switch) with a peer
     RelayOpen { peer: usize },
